@@ -33,9 +33,8 @@ def _user_chunk(vecs):
         table = dict(v['t'])
         case = {'snippets': table, 'abbr': v['abbr'], 'reverseAttributes': v['reverse']}
         try:
-            with common.Alarm(10):
-                text = emmet.expand(v['abbr'], {'snippets': table, 'options': {'output.format': False, 'output.selfClosingStyle': 'xhtml',
-                                                                                   'output.reverseAttributes': v['reverse']}})
+            text = common.guarded(lambda: emmet.expand(v['abbr'], {'snippets': dict(table), 'options': {
+                'output.format': False, 'output.selfClosingStyle': 'xhtml', 'output.reverseAttributes': v['reverse']}}), 10)
         except TimeoutError:
             bad.append(('resolution does not terminate', case))
             continue
